@@ -807,6 +807,12 @@ def hx(b):
     return b.hex()
 
 
+def widen(v):
+    """the reader turns every input byte into one char (`byte as char`) and the harness prints every char of a yielded string
+    as one byte again: the bytes of a tag value / comment must come back unchanged, for every chunking"""
+    return v.encode('utf-8')
+
+
 def render_pgn(rng, game_list):
     """game_list: [(tags [(k, v)], sans [str], final_fen_tok)] -> (bytes, expected `pgn` answer, expected `pgnreplay` answer)"""
     out = b''
@@ -817,7 +823,7 @@ def render_pgn(rng, game_list):
         result = rng.pick(['1-0', '0-1', '1/2-1/2', '*'])
         tags = list(tags) + [('Result', result)]
         for k, v in tags:
-            out += b'[' + k.encode() + b' "' + v.encode() + b'"]\n'
+            out += b'[' + k.encode() + b' "' + v.encode('utf-8') + b'"]\n'
         out += b'\n'
         mt = []
         exp_moves = []
@@ -834,7 +840,8 @@ def render_pgn(rng, game_list):
             mt.append(san)
             ann = None
             if comments and rng.chance(3, 4):
-                ann = rng.pick([' [%%clk 0:%02d:%02d] ' % (rng.below(60), rng.below(60)), ' [%eval 0.17] [%clk 0:00:30] ', '', ' book ', ' Blunder. Qd8 was best. '])
+                ann = rng.pick([' [%%clk 0:%02d:%02d] ' % (rng.below(60), rng.below(60)), ' [%eval 0.17] [%clk 0:00:30] ', '', ' book ', ' Blunder. Qd8 was best. ',
+                                ' (0.32 \u2192 1.05) Inaccuracy. Gr\u00fcnfeld was best. '])
                 mt.append('{' + ann + '}')
             prev_commented = ann is not None
             exp_moves.append((san, ann))
@@ -845,8 +852,8 @@ def render_pgn(rng, game_list):
         dedup = {}
         for k, v in tags:
             dedup[k.encode('latin-1', 'replace')] = v
-        item = 'G' + ''.join(' t:%s=%s' % (hx(k), hx(v.encode())) for k, v in sorted(dedup.items()))
-        item += ''.join(' m:%s' % hx(s.encode()) + ('/' + hx(a.encode()) if a is not None else '') for s, a in exp_moves)
+        item = 'G' + ''.join(' t:%s=%s' % (hx(k), hx(widen(v))) for k, v in sorted(dedup.items()))
+        item += ''.join(' m:%s' % hx(s.encode()) + ('/' + hx(widen(a)) if a is not None else '') for s, a in exp_moves)
         items.append(item)
         finals.append(final)
     return out, ' | '.join(items) if items else '-', ' | '.join(finals) if finals else '-'
@@ -866,8 +873,8 @@ def c17_cases(ctx):
         sans_s, final = a.rsplit('> ', 1) if '> ' in a else (a, '')
         sans = [x for x in sans_s.strip().split(' ') if x and x != '>']
         root = g[0].replace('_', ' ')
-        tags = [('Event', ctx.rng.pick(['Rated Blitz game', 'Casual Bullet game', 'Rated Classical tournament https://lichess.org/tournament/x'])),
-                ('Site', 'https://lichess.org/%08x' % ctx.rng.below(2 ** 32)), ('White', ctx.rng.pick(['alice', 'B0b', 'x y z'])),
+        tags = [('Event', ctx.rng.pick(['Rated Blitz game', 'Casual Bullet game', 'Rated Classical tournament https://lichess.org/tournament/x', 'S\u00e4misch Memorial \u2014 Runde 3'])),
+                ('Site', 'https://lichess.org/%08x' % ctx.rng.below(2 ** 32)), ('White', ctx.rng.pick(['alice', 'B0b', 'x y z', 'Gr\u00fcnfeld', 'Zo\u00eb \u265e'])),
                 ('Black', ctx.rng.pick(['carol', 'd_e', 'Anonymous'])), ('WhiteElo', str(1500 + ctx.rng.below(1200))),
                 ('BlackElo', '?'), ('TimeControl', ctx.rng.pick(['600+0', '180+2', '-'])), ('Termination', 'Normal')]
         if root != STARTFEN:
@@ -907,10 +914,33 @@ def c17_cases(ctx):
             j = ctx.rng.below(len(data) + 1)
             data[j:j] = bytes(ctx.rng.pick(list(b'[]"{}\n ;.')) for _ in range(1 + ctx.rng.below(3)))
         sched = '-' if ctx.rng.chance(1, 2) else ','.join(str(1 + ctx.rng.below(9)) for _ in range(1 + ctx.rng.below(4)))
-        cases.append(Case('pgn %d %s x:%s' % (ctx.rng.pick([1, 2, 3, 7, 16, 64, 8192]), sched, bytes(data).hex()), 'malformed'))
+        for ch in ctx.rng.sample([1, 2, 3, 7, 16, 64, 8192], 2):
+            cases.append(Case('pgn %d %s x:%s' % (ch, sched if ch != 8192 else '-', bytes(data).hex()), 'malformed'))
     for line in corpus('pgn_cases.txt'):
         cases.append(Case(line, 'corpus'))
     return cases
+
+
+def c17_post(ctx, cases, impl):
+    """the property itself: the items yielded for one input must not depend on the buffer size or on how the underlying
+    reader fragments its reads — every pair of runs on the same bytes is compared, whatever the expected answer"""
+    vs = []
+    first = {}
+    n = 0
+    for c, a in zip(cases, impl):
+        if c.stream not in ('lichess-layout', 'malformed', 'corpus') or not c.req.startswith('pgn '):
+            continue
+        tok = c.req.split(' ')[3]
+        if tok in first:
+            n += 1
+            c0, a0 = first[tok]
+            if a0 != a and len(vs) < 50:
+                vs.append({'kind': 'property', 'stream': 'chunk-independence', 'op': 'pgn', 'input': c.req, 'impl_output': a[:400],
+                           'why': 'the same bytes read with another buffer size / fragmentation (%s) yield different items: %s' % (' '.join(c0.req.split(' ')[:3]), a0[:200])})
+        else:
+            first[tok] = (c, a)
+    ctx.notes.append('pairs of runs on identical bytes with different chunking compared: %d' % n)
+    return vs
 
 
 # ------------------------------------------------------------------------------------------------------ C19
@@ -1081,7 +1111,7 @@ PROPS = {
                 theorems=['Inkayaku.C17.reader_bytes', 'Inkayaku.C17.chunk_independent', 'Inkayaku.C17.parse_render', 'Inkayaku.C17.c17',
                           'Inkayaku.C17.fuel_adequate', 'Inkayaku.C17Replay.replay_sanLine', 'Inkayaku.C17Replay.sanLine_some',
                           'Inkayaku.C17Replay.wfSan_of_sanLine', 'Inkayaku.C17Replay.pgn_replay'],
-                cases=c17_cases, anchors=['pgn/src/reader.rs', 'pgn_test/src/main.rs', 'board/src/board.rs'],
+                cases=c17_cases, post=c17_post, anchors=['pgn/src/reader.rs', 'pgn_test/src/main.rs', 'board/src/board.rs'],
                 assumptions=['std::io::Read contract: read returns 0 only at end of input']),
     'C19': dict(modules=['Inkayaku.Props.C19', 'Inkayaku.Props.C19Moves'], theorems=['Inkayaku.Props.C19Moves.uci_shape_parses', 'Inkayaku.Props.C19Moves.moves_decode_and_parse', 'Inkayaku.Props.C19Moves.moves_decode_parse_all', 'Inkayaku.Props.C19.schema_names_documented', 'Inkayaku.Props.C19.perf_keys_documented', 'Inkayaku.Props.C19.moves_split', 'Inkayaku.Props.C19.moves_split_uci', 'Inkayaku.Props.C19.decode_encode', 'Inkayaku.Props.C19.wf_generated', 'Inkayaku.Props.C19.parse_render_json', 'Inkayaku.Props.C19.decode_text_roundtrip'],
                 cases=c19_cases, needs_lichess=True,
